@@ -294,7 +294,8 @@ def jobs(tier):
     add('nfa2dfa_n2_k1', job_nfa2dfa, n=2, k=1, timeout=tmo)
     add('nfa2dfa_n2_k1_eps_unicode', job_nfa2dfa, n=2, k=1, eps='ε', timeout=tmo)
     if not q:
-        add('nfa2dfa_n2_k2', job_nfa2dfa, n=2, k=2, timeout=tmo)
+        # (2 states over two symbols: 51+ input bits plus one choice variable per pop, did not finish in 6 CPU-minutes)
+        add('nfa2dfa_n3_k1', job_nfa2dfa, n=3, k=1, timeout=900)
     for fam in ('indirect_nullable', 'three_vars', 'repeated_nullable') + (() if q else ('useless_cyclic',)):
         for phase in (2, 5) if q else (1, 2, 3, 4, 5):
             add('chomsky%d_%s' % (phase, fam), job_chomsky, family=fam, phase=phase, timeout=tmo)
